@@ -235,9 +235,20 @@ func (it *indexedMessageIterator) loadChunk(chunkIndex *ChunkIndex) error {
 	}
 
 	compressedChunkLength := chunkIndex.ChunkLength
+	// the chunk index comes from the file: do not trust it with allocations or slicing
+	if compressedChunkLength < 9 {
+		return fmt.Errorf("%w: chunk length %d is shorter than a record header", ErrBadOffset, compressedChunkLength)
+	}
+	if compressedChunkLength > uint64(it.fileSize)-chunkIndex.ChunkStartOffset {
+		return fmt.Errorf("%w: chunk of length %d at %d extends past file end %d", ErrBadOffset, compressedChunkLength, chunkIndex.ChunkStartOffset, it.fileSize)
+	}
 	if uint64(cap(it.recordBuf)) < compressedChunkLength {
-		newCapacity := int(float64(compressedChunkLength) * chunkBufferGrowthMultiple)
-		it.recordBuf = make([]byte, compressedChunkLength, newCapacity)
+		newCapacity := uint64(float64(compressedChunkLength) * chunkBufferGrowthMultiple)
+		buf, err := makeSafe(newCapacity)
+		if err != nil {
+			return fmt.Errorf("failed to allocate chunk buffer: %w", err)
+		}
+		it.recordBuf = buf[:compressedChunkLength]
 	} else {
 		it.recordBuf = it.recordBuf[:compressedChunkLength]
 	}
@@ -264,7 +275,10 @@ func (it *indexedMessageIterator) loadChunk(chunkIndex *ChunkIndex) error {
 	chunkSlot := &it.chunkSlots[chunkSlotIndex]
 	bufSize := parsedChunk.UncompressedSize
 	if uint64(cap(chunkSlot.buf)) < bufSize {
-		chunkSlot.buf = make([]byte, bufSize)
+		chunkSlot.buf, err = makeSafe(bufSize)
+		if err != nil {
+			return fmt.Errorf("failed to allocate decompressed chunk buffer: %w", err)
+		}
 	} else {
 		chunkSlot.buf = chunkSlot.buf[:bufSize]
 	}
